@@ -42,13 +42,14 @@ def main():
     ap.add_argument("--slots", type=int, default=3)
     ap.add_argument("--only", default="")
     ap.add_argument("--tier", default="quick")
+    ap.add_argument("--slot-base", type=int, default=0)
     a = ap.parse_args()
     seeds = sorted(os.path.basename(os.path.dirname(p)) for p in glob.glob(os.path.join(VERIF, "seeded", "*", "patch.diff")))
     if a.only:
         seeds = [s for s in seeds if s in a.only.split(",")]
     slots = queue.Queue()
     for k in range(1, a.slots + 1):
-        slots.put(k)
+        slots.put(a.slot_base + k)
     jobs = []
     for s in seeds:
         meta = json.load(open(os.path.join(VERIF, "seeded", s, "meta.json")))
